@@ -37,6 +37,14 @@ class Config:
         "integration_accuracy_rel": 1E-6
     }
 
+    _default_config = dict(config)
+
+    @classmethod
+    def reset(cls):
+        r"""Restore all options to their default values."""
+        cls.config.clear()
+        cls.config.update(cls._default_config)
+
     def __getitem__(self, key):
         return Config.config[key]
 
